@@ -324,8 +324,8 @@ func longN(full bool, k int) int {
 }
 
 // what leaves the callee × frames on the way × (kind of callee × depth 1, 2, 3, 5 | mixed kinds, depth 5), and break /
-// continue / return leaving the try statement itself. Reduced (quick): depths {1, 3} and two mixed chains, the frames
-// on the way rotating; full (thorough): everything.
+// continue / return leaving the try statement itself. Reduced (quick): depths {1, 3} and two mixed chains, one kind
+// of frame on the way per program, rotating; full (thorough): everything.
 func enumLong(full bool, emit func(Case)) {
 	k := 0
 	out := func(sp longSpec, tag string) {
@@ -355,12 +355,15 @@ func enumLong(full bool, emit func(Case)) {
 		for ci, ch := range chains {
 			mids := longMids
 			if !full {
-				mids = []string{longMids[rot%len(longMids)], longMids[(rot+1+ci%2)%len(longMids)]}
+				mids = []string{longMids[(rot+ci/2)%len(longMids)]}
 				rot++
 			}
 			for _, mid := range mids {
-				if act == "fall" && mid != "plain" && mid != "finally" {
-					continue // nothing to catch
+				if act == "fall" && mid != "plain" && mid != "finally" { // nothing to catch
+					if full {
+						continue
+					}
+					mid = map[string]string{"catch-rethrow": "plain", "catch-throw": "finally"}[mid]
 				}
 				out(longSpec{Action: act, Chain: ch, Mid: mid}, fmt.Sprintf("%s/%s/%s", act, strings.Join(ch, "."), mid))
 			}
